@@ -17,7 +17,7 @@ def build(ctx):
     for sh in shapes:
         nel = 0 if sh == "0" else len(sh)
         for capx in (0, 8):
-            ctx.add(vlib.Query("bundle-%s-c%d" % (sh, capx), [hb] + lib, defines=["-DSHAPE=%s" % sh, "-DNEL=%d" % nel, "-DCAPX=%d" % capx], unwind=16 + nel * 60 + 20,
+            ctx.add(vlib.Query("bundle-%s-c%d" % (sh, capx), [hb] + lib, defines=["-DSHAPE=%s" % sh, "-DNEL=%d" % nel, "-DCAPX=%d" % capx, "-DND_MAX=1024"], unwind=16 + nel * 60 + 20,
                                unwindset=["rtosc_message_ring_length.%d:%d" % (k, 18) for k in range(8)] + ["bundle_ring_length.0:%d" % (nel + 3),
                                           "rtosc_bundle_elements.0:%d" % (nel + 3), "rtosc_bundle_fetch.0:%d" % (nel + 3), "rtosc_bundle_size.0:%d" % (nel + 3),
                                           "rtosc_bundle.0:%d" % (nel + 2), "strcmp.0:10", "strcpy.0:10"],
